@@ -112,6 +112,18 @@ def body_schedule(I, X, ops=("A.set", "spawnC", "C.set")):
             ok = pand(ok, pk == ("val" if "x" in m["ns"] else "unbound"))
             if pk == "val" and "x" in m["ns"]:
                 ok = pand(ok, peq(pv, m["ns"]["x"]))
+
+            def via_stack_proxy():
+                p = LocalProxy(stk)
+                try:
+                    return ("val", I.call(p._get_current_object, ()))
+                except RuntimeError:
+                    return ("unbound", None)
+
+            sk, sv = cx.run(via_stack_proxy)
+            ok = pand(ok, sk == ("val" if m["st"] else "unbound"))
+            if sk == "val" and m["st"]:
+                ok = pand(ok, peq(sv, m["st"][-1]))
     return ok, {"trace": trace}
 
 
